@@ -305,6 +305,73 @@ def ViewL (c : WCfg) (l : List Node) (st st' : WSt) (items : List Item) : Prop :
     ∀ ctx : Ctx, Rd c st'.strtbl ctx → ∀ own,
       (evItems ctx own ⟨st.tagPage, st.attrPage⟩ items).1.flatMap toks = srcToksL c l
 
+/-! ### The typed source view (every language but Wireless Village / OTA settings)
+
+  `vNode c parent cur tp n` is the XML-level view a reader has of what the encoder writes for the
+  node `n` — typed content included: `%Datetime` attribute values (`vAttrValue`), text under a
+  DRMREL `ds:KeyValue` and under a binary-flagged tag (`vText`), names as the reader's table
+  resolves the token written (`nameView`: the first alias). It depends on the POSITION (name of the
+  enclosing element, `current_tag`, tag code page in force — the page decides which row a literal
+  name is resolved to) but on NO encoder option other than the language and the white-space policy
+  and on no encoder state: it is defined by recursion over the source tree alone. -/
+
+/-- `current_tag` after the tag of a node called `name`, given the tag page in force. -/
+def foundAt (l : Lang) (tp : Nat) : Name → Option TagRow
+  | .token r => some r
+  | .literal s =>
+    match l.tags with
+    | some tags => encTag tags (some tp) (cstrOf s)
+    | none => none
+
+theorem foundOf_eq_foundAt (c : WCfg) (name : Name) (st : WSt) : foundOf c name st = foundAt c.lang st.tagPage name := by
+  cases name <;> rfl
+
+/-- The tag page in force after the tag. -/
+def pageAfter (f : Option TagRow) (tp : Nat) : Nat :=
+  match f with
+  | some r => r.page % 256
+  | none => tp
+
+theorem tagLink_page (c : WCfg) (name : Name) (st : WSt) (sw tag) (h : TagLink c name st sw tag) :
+    swPage sw st.tagPage = pageAfter (foundOf c name st) st.tagPage := by
+  unfold TagLink at h
+  cases hf : foundOf c name st with
+  | some r => rw [hf] at h; rw [h.1, swPage_swFor]; rfl
+  | none => rw [hf] at h; rw [h.1]; rfl
+
+mutual
+def vNode (c : WCfg) (parent : Option Name) (cur : Option TagRow) (tp : Nat) : Node → List Tok × Nat
+  | .elt name attrs kids =>
+    (.start (nameView c.lang (foundAt c.lang tp name) name.cName) (vAttrs c attrs) ::
+      ((vNodes c (some name) (foundAt c.lang tp name) (pageAfter (foundAt c.lang tp name) tp) kids).1 ++
+        [.stop (nameView c.lang (foundAt c.lang tp name) name.cName)]),
+     (vNodes c (some name) (foundAt c.lang tp name) (pageAfter (foundAt c.lang tp name) tp) kids).2)
+  | .text s => ((vText c parent cur s).map .ch, tp)
+  | .cdata _ => ([], tp)
+  | .tree _ _ _ => ([], tp)
+def vNodes (c : WCfg) (parent : Option Name) (cur : Option TagRow) (tp : Nat) : List Node → List Tok × Nat
+  | [] => ([], tp)
+  | n :: r =>
+    ((vNode c parent cur tp n).1 ++ (vNodes c parent none (vNode c parent cur tp n).2 r).1,
+     (vNodes c parent none (vNode c parent cur tp n).2 r).2)
+end
+
+/-- What a reader at the same position (`Pos`) makes of the items written for a plain node is the
+    typed source view; the tag page afterwards is the one the view computes. -/
+def ViewT (c : WCfg) (parent : Option Name) (n : Node) (st st' : WSt) (items : List Item) : Prop :=
+  plainNode n = true → isWv c.lang.id = false → (c.lang.id == 1901) = false → st.inCdata = false →
+    st'.inCdata = false ∧ st'.tagPage = (vNode c parent st.curTag st.tagPage n).2 ∧
+    ∀ ctx : Ctx, RdT c st'.strtbl ctx → ∀ (ty pre : Bool) (own slot : Option TagRow),
+      Pos c ctx parent st.curTag ty pre own slot →
+      (evItems ctx own ⟨st.tagPage, st.attrPage⟩ items).1.flatMap toks = (vNode c parent st.curTag st.tagPage n).1
+
+def ViewTL (c : WCfg) (parent : Option Name) (l : List Node) (st st' : WSt) (items : List Item) : Prop :=
+  plainNodes l = true → isWv c.lang.id = false → (c.lang.id == 1901) = false → st.inCdata = false →
+    st'.inCdata = false ∧ st'.tagPage = (vNodes c parent st.curTag st.tagPage l).2 ∧
+    ∀ ctx : Ctx, RdT c st'.strtbl ctx → ∀ (ty pre : Bool) (own slot : Option TagRow),
+      Pos c ctx parent st.curTag ty pre own slot →
+      (evItems ctx own ⟨st.tagPage, st.attrPage⟩ items).1.flatMap toks = (vNodes c parent st.curTag st.tagPage l).1
+
 /-- An element is well-formed for a reader at `Pos` when its attributes are and its content is for
     the reader position of the children. -/
 theorem wfT_elem (c : WCfg) (name : Name) (src : List (Bytes × Bytes)) (st st1 : WSt) (hasC : Bool) (sw tag as)
@@ -351,22 +418,24 @@ theorem encNode_seg :
       ∀ st', encNodeG c parent encEnd n st = .ok st' →
         ∃ items, Seg c st st' items ∧ (isElt n = true → ∃ e, items = [.elem e]) ∧
           st'.curTag = none ∧ ViewN c n st st' items ∧ WfN c parent n st st' items ∧
-          (isTextN n = true → ∀ slot, slotEnd slot items = slot)) ∧
+          (isTextN n = true → ∀ slot, slotEnd slot items = slot) ∧ ViewT c parent n st st' items) ∧
     (∀ (c : WCfg) (parent : Option Name) (l : List Node) (st : WSt),
       langOk c.lang = true → nodesOver c.lang l = true → StrInv st →
       ∀ st', encNodesW c parent l st = .ok st' →
-        ∃ items, Seg c st st' items ∧ ViewL c l st st' items ∧ WfL c parent l st st' items) := by
+        ∃ items, Seg c st st' items ∧ ViewL c l st st' items ∧ WfL c parent l st st' items ∧
+          ViewTL c parent l st st' items) := by
   apply encNodeG.mutual_induct
     (motive_1 := fun c parent encEnd n st => encEnd = true →
       langOk c.lang = true → nodeOver c.lang n = true → StrInv st →
       ∀ st', encNodeG c parent encEnd n st = .ok st' →
         ∃ items, Seg c st st' items ∧ (isElt n = true → ∃ e, items = [.elem e]) ∧
           st'.curTag = none ∧ ViewN c n st st' items ∧ WfN c parent n st st' items ∧
-          (isTextN n = true → ∀ slot, slotEnd slot items = slot))
+          (isTextN n = true → ∀ slot, slotEnd slot items = slot) ∧ ViewT c parent n st st' items)
     (motive_2 := fun c parent l st =>
       langOk c.lang = true → nodesOver c.lang l = true → StrInv st →
       ∀ st', encNodesW c parent l st = .ok st' →
-        ∃ items, Seg c st st' items ∧ ViewL c l st st' items ∧ WfL c parent l st st' items)
+        ∃ items, Seg c st st' items ∧ ViewL c l st st' items ∧ WfL c parent l st st' items ∧
+          ViewTL c parent l st st' items)
   · -- element
     intro c parent encEnd name attrs kids st ih hend hl hover hinv st' h
     subst hend
@@ -376,7 +445,8 @@ theorem encNode_seg :
     obtain ⟨st1, h1, h⟩ := bind_ok' h
     obtain ⟨st2, h2, h⟩ := bind_ok' h
     have h3 := ok_inj h
-    obtain ⟨sw, tag, as, hs, hlink, hwfA⟩ := encElementStartW_spec' c name attrs (!kids.isEmpty) st st1 hl hname hattrs h1
+    obtain ⟨sw, tag, as, hs, hlink, hwfA, hvA⟩ := encElementStartW_spec' c name attrs (!kids.isEmpty) st st1 hl hname hattrs h1
+    have hpageT := tagLink_page c name st sw tag hlink
     have hcur := encElementStartW_cur c _ name attrs _ st st1 h1
     -- the reader's start and end events for this element
     have hname_view : ∀ ctx : Ctx, Rd c st1.strtbl ctx →
@@ -390,7 +460,7 @@ theorem encNode_seg :
       simp only [List.isEmpty_nil, Bool.not_true, Bool.and_false, Bool.false_eq_true, ↓reduceIte] at h3 hs
       subst h3
       refine ⟨_, (Seg.elem_empty c _ _ st st1 sw tag as hs).congr_right rfl rfl rfl rfl rfl, fun _ => ⟨_, rfl⟩, rfl, ?_,
-        ?_, fun h => (by cases h)⟩
+        ?_, fun h => (by cases h), ?_⟩
       rotate_left
       · intro ty pre htl _ h2 h3 _ ctx hc _ own slot hpos
         rw [validDatetimeAttrs, Bool.and_eq_true] at h2
@@ -398,6 +468,18 @@ theorem encNode_seg :
         have hc1 : Compat c st1.strtbl ctx := hc
         exact wfT_elem c name _ st st1 _ sw tag as hs hlink hname hl ctx hc1 (hwfA ctx hc1 hl htl h2.1 h3.1)
           parent st.curTag ty pre own slot hpos none (fun _ _ _ => by rw [wfContent])
+      · intro _ _ hno hcd
+        refine ⟨by show st1.inCdata = false; rw [hcur.1, hcd], ?_, ?_⟩
+        · show st1.tagPage = _
+          rw [hs.tp, hpageT, foundOf_eq_foundAt]
+          simp only [vNode, vNodes]
+        · intro ctx hr ty pre own slot _
+          have hr1 : RdT c st1.strtbl ctx := hr
+          have hnm := tagLink_name c name st st1.strtbl sw tag hs.tag hlink hname ctx hr1.lang hl hr1.res
+          rw [evItems_single_events, evItem_elem, evElem_mk, evContent_none]
+          simp only [List.nil_append, List.flatMap_cons, List.flatMap_nil, toks, List.append_nil,
+            hnm, hvA ctx hr1 hno, vNode, vNodes, foundOf_eq_foundAt]
+          rfl
       intro _ _ hnta hcd _
       refine ⟨by show st1.inCdata = false; rw [hcur.1, hcd], ?_, ?_⟩
       · rw [opqsItems_single, opqsItem_elem, opqsElem_mk, opqsContent_none, hs.noopq hnta]; rfl
@@ -409,10 +491,10 @@ theorem encNode_seg :
       rfl
     | cons k ks =>
       simp only [List.isEmpty_cons, Bool.not_false, Bool.and_self, ↓reduceIte] at h3 hs
-      obtain ⟨items, hk, hkv, hkw⟩ := ih st1 hl hkids (hs.tbl.inv hinv) st2 h2
+      obtain ⟨items, hk, hkv, hkw, hkT⟩ := ih st1 hl hkids (hs.tbl.inv hinv) st2 h2
       subst h3
       refine ⟨_, (Seg.elem_content c _ _ st st1 st2 sw tag as items hs hk).congr_right rfl rfl rfl rfl rfl,
-        fun _ => ⟨_, rfl⟩, rfl, ?_, ?_, fun h => (by cases h)⟩
+        fun _ => ⟨_, rfl⟩, rfl, ?_, ?_, fun h => (by cases h), ?_⟩
       rotate_left
       · intro ty pre htl h1' h2' h3' h4' ctx hc hsz own slot hpos
         rw [noCdataInTyped] at h1'
@@ -429,6 +511,26 @@ theorem encNode_seg :
         intro d hd
         exact hsz d (by rw [opqsItems_single, opqsItem_elem, opqsElem_mk, opqsContent_some]
                         exact List.mem_append_right _ hd)
+      · intro hpn hnw hno hcd
+        rw [plainNode] at hpn
+        obtain ⟨hcd2, htp2, hviewT⟩ := hkT hpn hnw hno (by rw [hcur.1, hcd])
+        rw [hcur.2, hs.tp, hpageT, foundOf_eq_foundAt] at htp2
+        refine ⟨hcd2, ?_, ?_⟩
+        · show st2.tagPage = _
+          rw [htp2]
+          simp only [vNode]
+        · intro ctx hr ty pre own slot hpos
+          have hr2 : RdT c st2.strtbl ctx := hr
+          have hr1 : RdT c st1.strtbl ctx := hr2.mono hk.tbl.pre
+          have hnm := tagLink_name c name st st1.strtbl sw tag hs.tag hlink hname ctx hr1.lang hl hr1.res
+          have hposK := hpos.kids hr1.lang hl name hname st sw tag hlink
+          have hbody := hviewT ctx hr2 _ true _ _ (by rw [hcur.2]; exact hposK)
+          rw [hcur.2, hs.tp, hs.ap ctx, hpageT, foundOf_eq_foundAt] at hbody
+          rw [evItems_single_events, evItem_elem, evElem_mk, evContent_some]
+          rw [hpageT, foundOf_eq_foundAt] at hnm ⊢
+          simp only [List.flatMap_cons, List.flatMap_append, List.flatMap_nil, toks, List.append_nil,
+            hnm, hvA ctx hr1 hno, hbody, vNode]
+          rfl
       intro hpn hpl hnta hcd _
       rw [plainNode] at hpn
       obtain ⟨hcd2, _, hnoq, hview⟩ := hkv hpn hpl hnta (by rw [hcur.1, hcd])
@@ -450,15 +552,23 @@ theorem encNode_seg :
     obtain ⟨st1, h1, h⟩ := bind_ok' h
     have h3 := ok_inj h
     subst h3
-    obtain ⟨items, hleaf, ho, htp, hap, ht, hlen, hcdeq, hv, hout⟩ := encTextW_spec' c parent s st st1 hinv h1
+    obtain ⟨items, hleaf, ho, htp, hap, ht, hlen, hcdeq, hv, hout, hvT⟩ := encTextW_spec' c parent s st st1 hinv h1
     refine ⟨items, (Seg.leaves c st st1 items hleaf ho htp hap ht hlen).congr_right rfl rfl rfl rfl rfl,
-      fun h => (by cases h), rfl, ?_, ?_, fun _ slot => slotEnd_leaves c st.strtbl slot items hleaf⟩
+      fun h => (by cases h), rfl, ?_, ?_, fun _ slot => slotEnd_leaves c st.strtbl slot items hleaf, ?_⟩
     rotate_left
     · intro ty pre htl _ _ h3 h4 ctx hc hsz own slot hpos
       have hc0 : Compat c st.strtbl ctx := by
         have : st1.strtbl = st.strtbl := ht
         exact ⟨hc.lang, hc.cs, fun e he => hc.offs e (by show e ∈ st1.strtbl; rw [this]; exact he)⟩
       exact text_wfT c parent s st items hleaf hout hl htl ty pre h3 h4 ctx hc0 hsz own slot hpos _
+    · intro _ hnw _ hcd
+      refine ⟨by show st1.inCdata = false; rw [hcdeq, hcd], by show st1.tagPage = _; rw [htp]; simp only [vNode], ?_⟩
+      intro ctx hr ty pre own slot hpos
+      have hres : Resolves ctx.tbl st.strtbl := by
+        have : st1.strtbl = st.strtbl := ht
+        intro e he; exact hr.res e (by show e ∈ st1.strtbl; rw [this]; exact he)
+      rw [hvT hnw hl hr.tl hcd ctx hr.lang hres own (fun r hr0 => (hpos.cur r hr0).2) hpos.par _]
+      simp only [vNode]
     intro _ hpl _ hcd hbin
     simp only [plainLang, Bool.and_eq_true, Bool.not_eq_true'] at hpl
     obtain ⟨hnoq, hv⟩ := hv hpl.1.1 hpl.1.2 hl hcd hbin
@@ -477,7 +587,7 @@ theorem encNode_seg :
     rw [nodeOver] at hover
     simp only [encNodeG, hs] at h
     obtain ⟨st2, h2, h⟩ := bind_ok' h
-    obtain ⟨items, hk, _, hkw⟩ := ih hl hover (hinv.of_eq rfl rfl) st2 h2
+    obtain ⟨items, hk, _, hkw, _⟩ := ih hl hover (hinv.of_eq rfl rfl) st2 h2
     have hk' : Seg c st st2 items := hk.congr_left rfl rfl rfl rfl rfl
     have hkw' : ∀ (ty pre : Bool), typedLangOk c.lang = true → noCdataInTyped c.lang ty (.cdata kids) = true →
         validDatetimeAttrs c.lang (.cdata kids) = true → b64TextDecodes c parent (.cdata kids) = true →
@@ -503,7 +613,7 @@ theorem encNode_seg :
             (by intro it hit; simp only [List.mem_cons, List.mem_nil_iff, or_false] at hit; subst hit; exact .opq cd)
             (by rw [serItems_single, serItem_opq]; rfl) rfl rfl rfl rfl
         refine ⟨_, (hk'.append hop).congr_right rfl rfl rfl rfl rfl, fun h => (by cases h), trivial,
-          fun hp => (by simp [plainNode] at hp), ?_, fun h => (by cases h)⟩
+          fun hp => (by simp [plainNode] at hp), ?_, fun h => (by cases h), fun hp => (by simp [plainNode] at hp)⟩
         intro ty pre htl h1' h2' h3' h4' ctx hc hsz own slot hpos
         have hc2 : Compat c st2.strtbl ctx := hc
         obtain ⟨hty, hkids⟩ := hkw' ty pre htl h1' h2' h3' h4' ctx hc2
@@ -516,7 +626,7 @@ theorem encNode_seg :
                          exact List.mem_append_right _ List.mem_cons_self)
       · simp only [hlen, ↓reduceIte]
         refine ⟨items, hk'.congr_right rfl rfl rfl rfl rfl, fun h => (by cases h), trivial,
-          fun hp => (by simp [plainNode] at hp), ?_, fun h => (by cases h)⟩
+          fun hp => (by simp [plainNode] at hp), ?_, fun h => (by cases h), fun hp => (by simp [plainNode] at hp)⟩
         intro ty pre htl h1' h2' h3' h4' ctx hc hsz own slot hpos
         exact (hkw' ty pre htl h1' h2' h3' h4' ctx hc hsz own slot hpos).2
   · -- nested tree without language
@@ -538,7 +648,7 @@ theorem encNode_seg :
         (by intro it hit; simp only [List.mem_cons, List.mem_nil_iff, or_false] at hit; subst hit; exact .opq _)
         (by rw [serItems_single, serItem_opq]; rfl) rfl rfl rfl rfl
     refine ⟨_, hop.congr_right rfl rfl rfl rfl rfl, fun h => (by cases h), rfl, fun hp => (by simp [plainNode] at hp),
-      ?_, fun h => (by cases h)⟩
+      ?_, fun h => (by cases h), fun hp => (by simp [plainNode] at hp)⟩
     intro ty pre htl h1' _ _ _ ctx hc hsz own slot hpos
     rw [noCdataInTyped] at h1'
     have hty : ty = false := by simpa using h1'
@@ -550,17 +660,19 @@ theorem encNode_seg :
     simp only [encNodesW] at h
     have := ok_inj h
     subst this
-    refine ⟨[], Seg.nil c st, ?_, fun _ _ _ _ _ _ _ _ _ _ _ _ _ => by rw [wfItems]⟩
-    intro _ _ _ hcd hbin
-    exact ⟨hcd, hbin, opqsItems_nil, fun ctx _ own => by rw [evItems_nil, srcToksL]; rfl⟩
+    refine ⟨[], Seg.nil c st, ?_, fun _ _ _ _ _ _ _ _ _ _ _ _ _ => by rw [wfItems], ?_⟩
+    · intro _ _ _ hcd hbin
+      exact ⟨hcd, hbin, opqsItems_nil, fun ctx _ own => by rw [evItems_nil, srcToksL]; rfl⟩
+    · intro _ _ _ hcd
+      exact ⟨hcd, by simp only [vNodes], fun ctx _ _ _ own _ _ => by rw [evItems_nil]; simp only [vNodes]; rfl⟩
   · -- a node and its later siblings
     intro c parent n rest st ih1 ih2 hl hover hinv st' h
     rw [nodesOver, Bool.and_eq_true] at hover
     simp only [encNodesW] at h
     obtain ⟨st1, h1, h⟩ := bind_ok' h
-    obtain ⟨a, ha, _, hcur1, hva, hwa, hta⟩ := ih1 rfl hl hover.1 hinv st1 h1
-    obtain ⟨b, hb, hvb, hwb⟩ := ih2 st1 hl hover.2 (ha.tbl.inv hinv) st' h
-    refine ⟨a ++ b, ha.append hb, ?_, ?_⟩
+    obtain ⟨a, ha, _, hcur1, hva, hwa, hta, hvaT⟩ := ih1 rfl hl hover.1 hinv st1 h1
+    obtain ⟨b, hb, hvb, hwb, hvbT⟩ := ih2 st1 hl hover.2 (ha.tbl.inv hinv) st' h
+    refine ⟨a ++ b, ha.append hb, ?_, ?_, ?_⟩
     rotate_left
     · intro ty pre htl h1' h2' h3' h4' ctx hc hsz own slot hpos
       rw [noCdataInTypedL, Bool.and_eq_true] at h1'
@@ -577,6 +689,22 @@ theorem encNode_seg :
       intro hp
       rw [Bool.and_eq_true] at hp
       exact ⟨hp.1, hta hp.2 slot⟩
+    · intro hpn hnw hno hcd
+      rw [plainNodes, Bool.and_eq_true] at hpn
+      obtain ⟨hcd1, htp1, hview1⟩ := hvaT hpn.1 hnw hno hcd
+      obtain ⟨hcd2, htp2, hview2⟩ := hvbT hpn.2 hnw hno hcd1
+      rw [hcur1, htp1] at htp2
+      refine ⟨hcd2, by rw [htp2]; simp only [vNodes], ?_⟩
+      intro ctx hr ty pre own slot hpos
+      have hposN : Pos c ctx parent none ty false own (slotEnd slot a) := hpos.next a false (fun h => by cases h)
+      have h2 := hview2 ctx hr ty false own _ (by rw [hcur1]; exact hposN)
+      rw [hcur1, htp1] at h2
+      rw [evItems_append_events, List.flatMap_append, hview1 ctx (hr.mono hb.tbl.pre) ty pre own slot hpos,
+        ha.pages ctx own]
+      have hpg : (⟨st1.tagPage, st1.attrPage⟩ : Pages) = ⟨(vNode c parent st.curTag st.tagPage n).2, st1.attrPage⟩ := by
+        rw [htp1]
+      rw [hpg, h2]
+      simp only [vNodes]
     intro hpn hpl hnta hcd hbin
     rw [plainNodes, Bool.and_eq_true] at hpn
     obtain ⟨hcd1, hnoq1, hview1⟩ := hva hpn.1 hpl hnta hcd hbin
